@@ -498,6 +498,16 @@ func tbl(r *Run, focus string) {
 		if tw.secure && !local && r.Rng.Intn(4) > 0 {
 			// keep the bucket (prefix) only when it survives securing; otherwise the id simply lands elsewhere
 			Bep42Secure(&c.id, c.addr.IP)
+			if r.Rng.Intn(6) == 0 {
+				// near miss: one of the 21 significant bits is wrong (or the seed byte changed)
+				if r.Rng.Intn(4) == 0 {
+					c.id[19] ^= byte(1 + r.Rng.Intn(7))
+				} else {
+					bit := r.Rng.Intn(21)
+					c.id[bit/8] ^= 0x80 >> uint(bit%8)
+				}
+				r.Probe("bep42-near-miss-id")
+			}
 		}
 		c.mode = ch.Pick([]int{6, 2, 1}, "contact.mode")
 		c.ro = ch.Chance(1, 8, "contact.ro")
